@@ -62,7 +62,7 @@ TYPES = ('LightSetColor', 'LightSetPower', 'MultiZoneSetColorZones',
 
 
 def runs_for(tier):
-    return 14000 if tier == "quick" else 300000
+    return 9000 if tier == "quick" else 250000
 
 
 # ---------------------------------------------------------------------------
@@ -406,7 +406,7 @@ def reference_trace(text, pop, tick):
         out['listing_after'] = listing(job.program)
 
     env.capture_logs()
-    with world.StdoutCapture() as so:
+    with world.StdoutCapture() as so, _clock_instrument():
         sim, res = world.run_sim(main, policy.ReplayChooser([]), gran='sync',
                                  step_cap=300000)
     out['stdout'] = so.text()
@@ -417,26 +417,39 @@ def reference_trace(text, pop, tick):
     return out
 
 
+_PAUSES = []
+
+
+def _w_pause(orig):
+    def pause_for(self, delay):
+        _PAUSES.append((core.current().next_event(),
+                        ('pause', round(delay, 9))))
+        orig(self, delay)
+    return pause_for
+
+
+def _w_until(orig):
+    def wait_until(self, pattern):
+        tbl = ''.join('1' if pattern.match(h, m) else '0'
+                      for h in range(24) for m in range(60))
+        _PAUSES.append((core.current().next_event(),
+                        ('until', hashlib.md5(tbl.encode()).hexdigest())))
+        orig(self, pattern)
+    return wait_until
+
+
+def _clock_instrument():
+    from bardolph.lib import clock as clock_mod
+    return world.Instrument(clock_mod.Clock, {'pause_for': _w_pause,
+                                              'wait_until': _w_until})
+
+
 def _world(sim, pop, tick):
     """Environment with a recording subclass of the real Clock."""
     from bardolph.lib import clock as clock_mod, injection, i_lib
     net, ls, ok = env.build_world(sim, pop, settings={'sleep_time': tick})
-    pauses = []
-
-    class RecClock(clock_mod.Clock):
-        def pause_for(self, delay):
-            pauses.append((core.current().next_event(),
-                           ('pause', round(delay, 9))))
-            super().pause_for(delay)
-
-        def wait_until(self, pattern):
-            tbl = ''.join('1' if pattern.match(h, m) else '0'
-                          for h in range(24) for m in range(60))
-            pauses.append((core.current().next_event(),
-                           ('until', hashlib.md5(tbl.encode()).hexdigest())))
-            super().wait_until(pattern)
-
-    injection.bind(RecClock).to(i_lib.Clock)
+    pauses = _PAUSES
+    del pauses[:]
     return net, pauses
 
 
@@ -523,7 +536,7 @@ def _exec_history(sc, chooser, violation, probes):
                                'listing_after': listing(job.program)})
             last[j] = ('stopped' if stopped else 'ran', current_text.get(j))
 
-    with world.StdoutCapture():
+    with world.StdoutCapture(), _clock_instrument():
         sim, out = world.run_sim(main, chooser, gran=sc['policy']['gran'],
                                  step_cap=500000, fairness=60)
     st['sim'] = sim
